@@ -411,3 +411,213 @@ def gen_cd_kernels(rng, n):
         cases.append((f"dist_fix_point_cd[{pn}]({list(w)},{list(grad_ws)},{list(lws)},{list(ws)})",
                       f"dist_fix_point_cd {pprox} {vq(w)} {vq(grad_ws)} {vq(lws)} {vz(ws)}", "chk_VF", xvec(r)))
     return cases
+
+
+# ------------------------------------------------------------------ group BCD kernels
+def gen_bcd_kernels(rng, n):
+    """_bcd_epoch(_sparse), _construct_grad(_sparse) of group_bcd.py, dist_fix_point_bcd, QuadraticGroup.gradient_g(_sparse):
+    the real njit kernels with real compiled QuadraticGroup + WeightedGroupL2 / WeightedL1GroupL2 objects vs the generated
+    kernels applied to the generated methods.  Random partitions of the features into (non-contiguous) groups, zero
+    columns (a zero Lipschitz constant skips the group), zero group weights."""
+    import skglm.datafits.group as dg
+    import skglm.penalties.block_separable as bs
+    import skglm.solvers.group_bcd as gb
+    import skglm.solvers.common as com
+    pf, sep, cc = _imp()
+    sig = gen_sig()
+    cases = []
+    small = [-2.0, -1.0, -0.5, 0.0, 0.0, 0.5, 1.0, 2.0]
+    for _ in range(max(1, n // 7)):
+        ns, p = rng.choice([1, 2, 4]), rng.randint(2, 5)
+        X = np.asfortranarray(np.array([[rng.choice(small) for _ in range(p)] for _ in range(ns)]))
+        perm = list(range(p)); rng.shuffle(perm)
+        ng = rng.randint(1, min(3, p))
+        cuts = sorted(rng.sample(range(1, p), ng - 1)) if ng > 1 else []
+        grp_ptr = np.array([0] + cuts + [p], dtype=np.int32)
+        grp_indices = np.array(perm, dtype=np.int32)
+        if rng.random() < 0.4:
+            g0 = rng.randrange(ng)
+            X[:, grp_indices[grp_ptr[g0]:grp_ptr[g0 + 1]]] = 0.0          # all-zero group: lipschitz[g] = 0
+        y = np.array([rng.choice(small) for _ in range(ns)])
+        w = np.array([rng.choice(small) for _ in range(p)])
+        Xw = X @ w + rng.choice([0.0, 0.5])
+        ws = np.array(rng.sample(range(ng), rng.randint(1, ng)), dtype=np.int32)
+        a = rng.choice([0.25, 0.5, 1.0])
+        wg = np.array([rng.choice([0.0, 0.5, 1.0, 2.0]) for _ in range(ng)])
+        wf = np.array([rng.choice([0.0, 0.5, 1.0]) for _ in range(p)])
+        pos = rng.random() < 0.3
+        pens = [("WeightedGroupL2", bs.WeightedGroupL2(a, wg, grp_ptr, grp_indices, pos),
+                 dict(alpha=q(a), weights=vq(wg), grp_ptr=vz(grp_ptr), grp_indices=vz(grp_indices), positive=b(pos))),
+                ("WeightedL1GroupL2", bs.WeightedL1GroupL2(a, wg, wf, grp_ptr, grp_indices),
+                 dict(alpha=q(a), weights_groups=vq(wg), weights_features=vq(wf), grp_ptr=vz(grp_ptr), grp_indices=vz(grp_indices)))]
+        pn, pinst, pfd = rng.choice(pens)
+        pen = cc(pinst)
+        df = cc(dg.QuadraticGroup(grp_ptr, grp_indices))
+        dfd = dict(grp_ptr=vz(grp_ptr), grp_indices=vz(grp_indices))
+        lip = np.array([rng.choice([0.5, 1.0, 2.0, 4.0]) for _ in range(ng)])
+        for g in range(ng):
+            if not X[:, grp_indices[grp_ptr[g]:grp_ptr[g + 1]]].any():
+                lip[g] = 0.0
+        data, indptr, indices = csc_of(X)
+        gp, gi = vz(grp_ptr), vz(grp_indices)
+        prox = f"({pn}_prox_1group {fields_of(sig, pn + '_prox_1group', pfd)})"
+        gg = f"(QuadraticGroup_gradient_g {fields_of(sig, 'QuadraticGroup_gradient_g', dfd)})"
+        ggs = f"(QuadraticGroup_gradient_g_sparse {fields_of(sig, 'QuadraticGroup_gradient_g_sparse', dfd)})"
+        tagc = f"[{pn}] grp_ptr={grp_ptr.tolist()} grp_indices={grp_indices.tolist()} X={X.tolist()} y={y.tolist()} w={w.tolist()} Xw={Xw.tolist()} lip={lip.tolist()} ws={ws.tolist()} wg={wg.tolist()} wf={wf.tolist()} a={a} pos={pos}"
+        # datafit group gradient, dense and sparse
+        g = int(rng.choice(ws))
+        r = call_impl(df.gradient_g, X, y, w, Xw, g)
+        cases.append((f"QuadraticGroup_gradient_g g={g} {tagc}", f"{gg} {mat(X)} {vq(y)} {vq(w)} {vq(Xw)} {z(g)}", "chk_VF", xvec(r)))
+        r = call_impl(df.gradient_g_sparse, data, indptr, indices, y, w, Xw, g)
+        cases.append((f"QuadraticGroup_gradient_g_sparse g={g} {tagc}",
+                      f"{ggs} {vq(data)} {vz(indptr)} {vz(indices)} {vq(y)} {vq(w)} {vq(Xw)} {z(g)}", "chk_VF", xvec(r)))
+        # dense epoch
+        w1, Xw1 = w.copy(), Xw.copy()
+        ok = call_impl(gb._bcd_epoch, X, y, w1, Xw1, lip, df, pen, ws)
+        fin = np.all(np.isfinite(w1)) and np.all(np.isfinite(Xw1))
+        exp = f"(Some ({xvec(w1)[6:-1]}, {xvec(Xw1)[6:-1]}))" if fin else "None"
+        cases.append((f"_bcd_epoch {tagc}", f"_bcd_epoch {gp} {gi} {gg} {prox} {mat(X)} {vq(y)} {vq(w)} {vq(Xw)} {vq(lip)} {vz(ws)}", "chk_VF2", exp))
+        # sparse epoch
+        w2, Xw2 = w.copy(), Xw.copy()
+        call_impl(gb._bcd_epoch_sparse, data, indptr, indices, y, w2, Xw2, lip, df, pen, ws)
+        fin = np.all(np.isfinite(w2)) and np.all(np.isfinite(Xw2))
+        exp = f"(Some ({xvec(w2)[6:-1]}, {xvec(Xw2)[6:-1]}))" if fin else "None"
+        cases.append((f"_bcd_epoch_sparse {tagc}",
+                      f"_bcd_epoch_sparse {gp} {gi} {ggs} {prox} {vq(data)} {vz(indptr)} {vz(indices)} {vq(y)} {vq(w)} {vq(Xw)} {vq(lip)} {vz(ws)}",
+                      "chk_VF2", exp))
+        # stacked working-set gradient
+        r = call_impl(gb._construct_grad, X, y, w, Xw, df, ws)
+        cases.append((f"bcd_construct_grad {tagc}", f"bcd_construct_grad {gp} {gg} {mat(X)} {vq(y)} {vq(w)} {vq(Xw)} {vz(ws)}", "chk_VF", xvec(r)))
+        r = call_impl(gb._construct_grad_sparse, data, indptr, indices, y, w, Xw, df, ws)
+        cases.append((f"bcd_construct_grad_sparse {tagc}",
+                      f"bcd_construct_grad_sparse {gp} {ggs} {vq(data)} {vz(indptr)} {vz(indices)} {vq(y)} {vq(w)} {vq(Xw)} {vz(ws)}", "chk_VF", xvec(r)))
+        # fix-point score
+        nws = int(sum(grp_ptr[g_ + 1] - grp_ptr[g_] for g_ in ws))
+        grad_ws = np.array([rng.choice(small) for _ in range(nws)])
+        r = call_impl(com.dist_fix_point_bcd, w, grad_ws, lip[ws], df, pen, ws)
+        cases.append((f"dist_fix_point_bcd grad_ws={grad_ws.tolist()} {tagc}",
+                      f"dist_fix_point_bcd {gp} {gi} {prox} {vq(w)} {vq(grad_ws)} {vq(lip[ws])} {vz(ws)}", "chk_VF", xvec(r)))
+    return cases
+
+
+BCD_KERNEL_IMPORTS = ["Gen.ProxFuncs", "Gen.PenBlock", "Gen.SparseOps", "Gen.DfGroup", "Gen.KernCD", "Gen.KernBCD"]
+
+
+def add_bcd_kernel_corr(base, rng, n, tag, only=None):
+    """run the group-BCD kernel correspondence and merge it into the correspondence record `base` of a property"""
+    import tvlib
+    kc = gen_bcd_kernels(rng, n)
+    if only:
+        kc = [c for c in kc if any(c[0].startswith(o) for o in only)]
+    r = tvlib.run_cases(kc, BCD_KERNEL_IMPORTS, tag, shard=40, jobs=16)
+    out = dict(base)
+    out["cases"] = base.get("cases", 0) + len(kc)
+    out["bad"] = (list(base.get("bad", [])) + r["bad"])[:20]
+    out["errors"] = list(base.get("errors", [])) + r["errors"]
+    d = dict(base.get("distribution", {}))
+    kinds = {}
+    for lab, *_ in kc:
+        kinds[lab.split(" ")[0]] = kinds.get(lab.split(" ")[0], 0) + 1
+    d["group_bcd_kernels"] = kinds
+    out["distribution"] = d
+    out["distinct_nontrivial"] = base.get("distinct_nontrivial", 0) + len({c[0] for c in kc})
+    return out
+
+
+# ------------------------------------------------------------------ prox-Newton kernels
+def _def_params(defname):
+    """ordered parameter names of a generated definition (parsed from Gen/*.v)"""
+    import re, os, glob
+    from tvlib import COQ
+    for f in glob.glob(os.path.join(COQ, "Gen", "*.v")):
+        m = re.search(r"^Definition " + re.escape(defname) + r" (.*?) : res", open(f).read(), re.M)
+        if m:
+            return re.findall(r"\((\w+) :", m.group(1))
+    raise KeyError(defname)
+
+
+def call_by_name(defname, env):
+    return defname + " " + " ".join(env[p] for p in _def_params(defname))
+
+
+def gen_pn_kernels(rng, n):
+    """_descent_direction(_s), _backtrack_line_search(_s), _construct_grad(_sparse) of prox_newton.py: the real njit kernels with
+    the real compiled Quadratic datafit and L1 / WeightedL1 penalties vs the regenerated kernels (one copy per value of
+    fit_intercept / ws_strategy, as the translator specialises them) applied to the regenerated methods.  Designs with
+    power-of-two column norms keep the coordinate steps dyadic."""
+    import skglm.datafits.single_task as st
+    import skglm.solvers.prox_newton as pn
+    pf, sep, cc = _imp()
+    sig = gen_sig()
+    cases = []
+    vals = [-2.0, -1.0, -0.5, 0.0, 0.0, 0.5, 1.0, 2.0]
+    for _ in range(max(1, n // 6)):
+        ns, p = 4, rng.randint(1, 3)
+        X = np.zeros((ns, p), order="F")
+        for j in range(p):
+            k = rng.choice([0, 1, 2, 4, 4])
+            for i in rng.sample(range(ns), k):
+                X[i, j] = rng.choice([-1.0, 1.0])
+        y = np.array([rng.choice(vals) for _ in range(ns)])
+        fi = rng.random() < 0.5
+        w = np.array([rng.choice(vals) for _ in range(p + fi)])
+        Xw = X @ w[:p] + (w[-1] if fi else 0.0)
+        if rng.random() < 0.2:
+            Xw = Xw + 0.5                                                   # inconsistent start: still legal input
+        ws = np.array(sorted(rng.sample(range(p), rng.randint(1, p))), dtype=np.int64)
+        a, pos = rng.choice([0.25, 0.5, 1.0]), rng.random() < 0.3
+        wts = np.array([rng.choice([0.0, 0.5, 1.0, 2.0]) for _ in range(p)])
+        pens = [("L1", sep.L1(a, pos), dict(alpha=q(a), positive=b(pos))),
+                ("WeightedL1", sep.WeightedL1(a, wts, pos), dict(alpha=q(a), weights=vq(wts), positive=b(pos)))]
+        pn_, pinst, pfd = rng.choice(pens)
+        pen, df = cc(pinst), cc(st.Quadratic())
+        if pos:
+            # the line search subtracts penalty values: the model keeps them finite, so start from a feasible point
+            # (the direction kernel keeps w + delta feasible, hence every trial point of the line search)
+            w[:p] = np.abs(w[:p])
+            Xw = X @ w[:p] + (w[-1] if fi else 0.0)
+        strat = rng.choice(["subdiff", "fixpoint"])
+        tol = rng.choice([2.0 ** -3, 2.0 ** -6, 0.5])
+        data, indptr, indices = csc_of(X)
+
+        def meth(m):
+            return f"({pn_}_{m} {fields_of(sig, pn_ + '_' + m, pfd)})"
+        env = dict(datafit_raw_hessian="Quadratic_raw_hessian", datafit_raw_grad="Quadratic_raw_grad",
+                   penalty_prox_1d=meth("prox_1d"), penalty_subdiff_distance=meth("subdiff_distance"),
+                   penalty_value=f"(fun w__ => fin_of {meth('value')[:-1]} w__))",
+                   X=mat(X), X_data=vq(data), X_indptr=vz(indptr), X_indices=vz(indices), y=vq(y), ws=vz(ws), tol=q(tol))
+        tagc = f"[{pn_} fi={fi} {strat}] X={X.tolist()} y={y.tolist()} w={w.tolist()} Xw={Xw.tolist()} ws={ws.tolist()} a={a} pos={pos} wts={wts.tolist()} tol={tol}"
+        grad_ws = np.array(call_impl(pn._construct_grad, X, y, w[:p], Xw, df, ws))
+        cases.append((f"pn_construct_grad {tagc}", call_by_name("pn_construct_grad", dict(env, w=vq(w[:p]), Xw=vq(Xw))), "chk_VF", xvec(grad_ws)))
+        r = call_impl(pn._construct_grad_sparse, data, indptr, indices, y, w[:p], Xw, df, ws)
+        cases.append((f"pn_construct_grad_sparse {tagc}", call_by_name("pn_construct_grad_sparse", dict(env, w=vq(w[:p]), Xw=vq(Xw))), "chk_VF", xvec(r)))
+
+        def x3(r):
+            if r is None or not all(np.all(np.isfinite(np.asarray(t))) for t in r):
+                return "None"
+            return "(Some (" + ", ".join(xvec(t)[6:-1] for t in r) + "))"
+        suffix = f"__fit_intercept_{fi}__ws_strategy_{strat}"
+        env_d = dict(env, w_epoch=vq(w), Xw_epoch=vq(Xw), grad_ws=vq(grad_ws))
+        r = call_impl(pn._descent_direction, X, y, w.copy(), Xw.copy(), fi, grad_ws.copy(), df, pen, ws, tol, strat)
+        cases.append((f"_descent_direction {tagc}", call_by_name("_descent_direction" + suffix, env_d), "chk_VF3", x3(r)))
+        rs = call_impl(pn._descent_direction_s, data, indptr, indices, y, w.copy(), Xw.copy(), fi, grad_ws.copy(), df, pen, ws, tol, strat)
+        cases.append((f"_descent_direction_s {tagc}", call_by_name("_descent_direction_s" + suffix, env_d), "chk_VF3", x3(rs)))
+        # line search along the direction just computed (or along a random one)
+        if r is not None and (pos or rng.random() < 0.7):
+            delta, Xdelta = np.asarray(r[0]), np.asarray(r[1])
+        else:
+            delta = np.array([rng.choice(vals) for _ in range(len(ws) + fi)])
+            Xdelta = X[:, ws] @ delta[:len(ws)] + (delta[-1] if fi else 0.0)
+        env_l = dict(env, delta_w_ws=vq(delta), X_delta_w_ws=vq(Xdelta), w=vq(w), Xw=vq(Xw))
+        w1, Xw1 = w.copy(), Xw.copy()
+        g1 = call_impl(pn._backtrack_line_search, X, y, w1, Xw1, fi, df, pen, delta.copy(), Xdelta.copy(), ws)
+        cases.append((f"_backtrack_line_search delta={delta.tolist()} {tagc}", call_by_name(f"_backtrack_line_search__fit_intercept_{fi}", env_l),
+                      "chk_VF3", x3(None if g1 is None else (w1, Xw1, g1))))
+        w2, Xw2 = w.copy(), Xw.copy()
+        g2 = call_impl(pn._backtrack_line_search_s, data, indptr, indices, y, w2, Xw2, fi, df, pen, delta.copy(), Xdelta.copy(), ws)
+        cases.append((f"_backtrack_line_search_s delta={delta.tolist()} {tagc}", call_by_name(f"_backtrack_line_search_s__fit_intercept_{fi}", env_l),
+                      "chk_VF3", x3(None if g2 is None else (w2, Xw2, g2))))
+    return cases
+
+
+PN_KERNEL_IMPORTS = ["Gen.ProxFuncs", "Gen.PenSeparable", "Gen.SparseOps", "Gen.DfSingle", "Gen.KernCD", "Gen.KernPN"]
